@@ -3281,6 +3281,11 @@ static Node *primary(Token **rest, Token *tok) {
       return new_num(0, start);
     if (is_flonum(ty) && ty->kind != TY_LDOUBLE)
       return new_num(1, start);
+
+    // A small struct or union travels in up to two registers: 4 plus
+    // bit 0 (bit 1) set if the first (second) eightbyte is of class SSE.
+    if ((ty->kind == TY_STRUCT || ty->kind == TY_UNION) && ty->size <= 16 && !has_ldouble(ty))
+      return new_num(4 + has_flonum(ty, 0, 8, 0) + 2 * has_flonum(ty, 8, 16, 0), start);
     return new_num(2, start);
   }
 
